@@ -123,7 +123,29 @@ static void poly_case(void) {
     lp_polynomial_delete(c1); lp_polynomial_delete(c2); lp_polynomial_delete(P);
     break; }
   }
+  /* structural observers on every object the case touched: printing alone cannot see a non-canonical representation */
+  { lp_polynomial_t* objs[4] = { A, B, S, D };
+    for (int k = 0; k < 4; ++k) { if (!objs[k]) continue;
+      sb_begin("poly", "obs"); sb_sp(); hp_ring_token(ri); sb_sp(); sb_str("f"); sb_sp(); sb_poly(objs[k]); sb_arrow();
+      sb_sp(); sb_long(lp_polynomial_is_zero(objs[k])); sb_sp(); sb_long(lp_polynomial_is_constant(objs[k])); sb_sp(); sb_ulong(lp_polynomial_degree(objs[k]));
+      sb_sp(); if (lp_polynomial_is_constant(objs[k])) sb_str("-"); else sb_ulong(lp_polynomial_top_variable(objs[k]));
+      sb_emit(); } }
   lp_polynomial_delete(A); lp_polynomial_delete(B); lp_polynomial_delete(S); if (D) lp_polynomial_delete(D);
+  /* c*x^n for every kind of c, including 0 and multiples of the modulus */
+  if (chance(25)) {
+    lp_integer_t c; lp_integer_construct(&c); hp_gen_coeff(&c, ri);
+    unsigned w = rnd(4);
+    if (w == 0) lp_integer_assign_int(lp_Z, &c, 0);
+    else if (w == 1 && ri != 0) mpz_set(&c, &hp_ring[ri]->M);                 /* = 0 in the ring */
+    unsigned n = rnd(4); lp_variable_t x = hp_x[rnd(NVARS)];
+    lp_polynomial_t* q = lp_polynomial_alloc();
+    sb_begin("poly", "simple"); sb_sp(); hp_ring_token(ri); sb_sp(); sb_str("f"); sb_sp(); sb_mpz(&c); sb_sp(); sb_ulong(x); sb_sp(); sb_ulong(n); sb_arrow();
+    lp_polynomial_construct_simple(q, hp_ctx[ri], &c, x, n);
+    sb_sp(); sb_poly(q);
+    sb_sp(); sb_long(lp_polynomial_is_zero(q)); sb_sp(); sb_long(lp_polynomial_is_constant(q)); sb_sp(); sb_ulong(lp_polynomial_degree(q));
+    sb_emit();
+    lp_polynomial_delete(q); lp_integer_destruct(&c);
+  }
 }
 
 static void upoly_case(void) {
